@@ -87,6 +87,15 @@ def run(ctx):
         for q in "'\"":
             cases.append((q + "".join(rawest(c, q) for c in t3) + q, "".join(chr(c) for c in t3), "raw pair"))
             cases.append((q + "a" + "".join(rawest(c, q) for c in t3) + "z" + q, "a" + "".join(chr(c) for c in t3) + "z", "raw pair"))
+    # the same literal far into a long source (the lexer reads through a 4096-byte buffer and looks two characters ahead after \\x), and very long literals
+    pads = list(range(4076, 4096)) + [8180, 8181, 8182, 8183, 8184, 8185] if quick else list(range(4040, 4120)) + list(range(8150, 8200)) + list(range(12260, 12300))
+    for pad in pads:
+        for q in "'\"":
+            for body, b in (("\\x41", "A"), ("a\\x4a\\n", "aJ\n"), ("\\x4", "x4")):
+                cases.append((" " * pad + q + body + q, b, "literal deep in a long source"))
+    for n in (1021, 1022, 1023, 1024, 1300) if quick else range(1015, 1035):
+        for lead in ("", " ", "  ", "   "):
+            cases.append((lead + "'" + "\\x41" * n + "'", "A" * n, "very long literal"))
     # random ASCII strings with mixed spellings
     for _ in range(300 if quick else 6000):
         q = rng.choice("'\"")
